@@ -361,6 +361,12 @@ class SpecLib:
             obj.val = VSeq("list", s.ety, z3.Concat(z3.SubSeq(t, 0, i), z3.Unit(unwrap(s.ety, v)),
                                                     z3.SubSeq(t, i + 1, n - i - 1)))
             return
+        if isinstance(obj, (VObj, VRef)):
+            # a user class: obj[key] = v is obj.__setitem__(key, v)
+            mod = ex.world.module_of_class(obj.cls)
+            if mod is not None and mod.mro_lookup(obj.cls, "__setitem__"):
+                ex.call(ex.getattr(obj, "__setitem__"), [key, v], {})
+                return
         raise Unsupported("item store on %r" % (obj,))
 
     def setslice(self, ex, obj, lo, hi, v):
